@@ -35,93 +35,107 @@ def _check(assertions, timeout_ms):
     numbering left behind by VC generation (which varies from run to run with Python's memory management)."""
     s0 = z3.Solver()
     s0.add(*assertions)
-    ctx = z3.Context()
-    s = z3.Solver(ctx=ctx)
-    s.set("rlimit", Z3_RLIMIT)
-    s.set("timeout", timeout_ms)
-    s.set("random_seed", 0)
-    s.from_string(s0.to_smt2())
-    return s.check(), s
+    text = s0.to_smt2()
+    r = z3.unknown
+    for attempt, seed in enumerate((0, 7, 23)):
+        ctx = z3.Context()
+        s = z3.Solver(ctx=ctx)
+        s.set("rlimit", Z3_RLIMIT)
+        s.set("timeout", timeout_ms if attempt == 0 else min(timeout_ms, 20_000))
+        s.set("random_seed", seed)
+        s.from_string(text)
+        r = s.check()
+        # 'unknown' is retried with other seeds (quantifier instantiation is heuristic); sat / unsat are final
+        if r != z3.unknown or timeout_ms <= 2_000:
+            break
+    return r, s
+
+
+_SK = [0]
+
+
+def _skolem(sort):
+    _SK[0] += 1
+    return z3.Const(f"sk!!{_SK[0]}", sort)     # numbered per obligation (reset in solve): names do not depend on the process history
+
+
+def _prove(conds, goal, depth=0):
+    """(result, solver) for `conds |= goal`.  Universal goals are skolemised here (also below an implication), conjunctive goals are
+    discharged conjunct by conjunct, each as its own query with its own instantiation hints."""
+    extra = []
+    skolems = []
+    while True:
+        if z3.is_quantifier(goal) and goal.is_forall():
+            vs = [_skolem(goal.var_sort(i)) for i in range(goal.num_vars())]
+            skolems.extend(vs)
+            goal = z3.substitute_vars(goal.body(), *reversed(vs))
+        elif z3.is_implies(goal) and ((z3.is_quantifier(goal.arg(1)) and goal.arg(1).is_forall()) or z3.is_and(goal.arg(1)) or z3.is_implies(goal.arg(1))):
+            # forall i. A(i) -> forall j. B(i, j): assume A at the skolem constant and continue with the inner goal
+            extra.append(goal.arg(0))
+            goal = goal.arg(1)
+        else:
+            break
+    # help e-matching: the universal hypotheses at the goal's skolem constants
+    int_sks = [sk for sk in skolems if z3.is_int(sk)]
+    cands2 = [t for sk in int_sks[:3] for t in (sk, sk - 1, sk + 1)]
+    for c in conds:
+        if z3.is_quantifier(c) and c.is_forall() and c.num_vars() == 1:
+            for sk in skolems:
+                if sk.sort() == c.var_sort(0):
+                    extra.append(z3.substitute_vars(c.body(), sk))
+                    if z3.is_int(sk):          # neighbours too: invariants relate index k with k-1 / k+1
+                        extra.append(z3.substitute_vars(c.body(), sk - 1))
+                        extra.append(z3.substitute_vars(c.body(), sk + 1))
+                        if len(int_sks) > 1:    # nested index structure: inner quantifiers at the goal's indices as well
+                            extra.extend(_nested_instances(z3.substitute_vars(c.body(), sk), int_sks[:3]))
+        elif z3.is_quantifier(c) and c.is_forall() and c.num_vars() == 2 and cands2 \
+                and c.var_sort(0) == z3.IntSort() and c.var_sort(1) == z3.IntSort():
+            # two-index lemmas (monotone allocation counters, pairwise distinct keys) at all pairs of the goal's indices
+            for a in cands2:
+                for b in cands2:
+                    extra.append(z3.substitute_vars(c.body(), a, b))
+    base = list(conds) + extra
+    if z3.is_and(goal) and goal.num_args() > 1 and depth < 4:
+        r, s = z3.unsat, None
+        for cj in goal.children():
+            r, s = _prove(base, cj, depth + 1)
+            if r != z3.unsat:
+                break
+        return r, s
+    # an existential goal: its negation is universal; instantiate it at the integer constants of the path (witness candidates)
+    if z3.is_quantifier(goal) and goal.is_exists() and goal.num_vars() == 1 and goal.var_sort(0) == z3.IntSort():
+        cands = {}
+
+        def walk(t, d=0):
+            if d > 40 or len(cands) > 24:
+                return
+            if z3.is_const(t) and t.decl().kind() == z3.Z3_OP_UNINTERPRETED and t.sort() == z3.IntSort():
+                cands[str(t)] = t
+            if z3.is_app(t):
+                for ch in t.children():
+                    walk(ch, d + 1)
+            elif z3.is_quantifier(t):
+                walk(t.body(), d + 1)
+        for c in conds:
+            walk(c)
+        for c in list(cands.values()):
+            for w in (c, c + 1):
+                base.append(z3.Not(z3.substitute_vars(goal.body(), w)))
+            for h in conds:       # and the universal hypotheses at the same candidates
+                if z3.is_quantifier(h) and h.is_forall() and h.num_vars() == 1 and h.var_sort(0) == z3.IntSort():
+                    base.append(z3.substitute_vars(h.body(), c))
+    return _check(base + [z3.Not(goal)], Z3_TIMEOUT_MS)
 
 
 def solve(ob, use_cvc5=True):
     """Sets ob.verdict in {'proved','refuted','unknown'} (for expect='sat': 'reachable'/'vacuous'/'unknown')."""
-    s = z3.Solver()
-    s.set("rlimit", Z3_RLIMIT)
-    # reachability checks (cover / canary) only have to rule out vacuity: 'unknown' is acceptable, so they get a short budget
-    s.set("timeout", Z3_TIMEOUT_MS if ob.expect == "unsat" else 2_000)
-    s.set("random_seed", 0)
-    s.add(*ob.conds)
-    if ob.expect == "unsat":
-        goal = ob.goal
-        # a universally quantified goal is proved for fresh constants (skolemisation done here, not left to the solver)
-        skolems = []
-        while True:
-            if z3.is_quantifier(goal) and goal.is_forall():
-                vs = [z3.FreshConst(goal.var_sort(i), "sk") for i in range(goal.num_vars())]
-                skolems.extend(vs)
-                goal = z3.substitute_vars(goal.body(), *reversed(vs))
-            elif z3.is_implies(goal) and z3.is_quantifier(goal.arg(1)) and goal.arg(1).is_forall():
-                # forall i. A(i) -> forall j. B(i, j): assume A at the skolem constant and continue with the inner goal
-                s.add(goal.arg(0))
-                goal = goal.arg(1)
-            else:
-                break
-        # a conjunctive goal is discharged conjunct by conjunct (smaller, more stable queries)
-        conjuncts = list(goal.children()) if z3.is_and(goal) and goal.num_args() > 1 else None
-        if conjuncts is None:
-            s.add(z3.Not(goal))
-        # an existential goal: its negation is universal; instantiate it at the integer constants of the path (witness candidates)
-        if z3.is_quantifier(goal) and goal.is_exists() and goal.num_vars() == 1 and goal.var_sort(0) == z3.IntSort():
-            cands = {}
-
-            def walk(t, depth=0):
-                if depth > 40 or len(cands) > 24:
-                    return
-                if z3.is_const(t) and t.decl().kind() == z3.Z3_OP_UNINTERPRETED and t.sort() == z3.IntSort():
-                    cands[str(t)] = t
-                if z3.is_app(t):
-                    for ch in t.children():
-                        walk(ch, depth + 1)
-                elif z3.is_quantifier(t):
-                    walk(t.body(), depth + 1)
-            for c in ob.conds:
-                walk(c)
-            for c in cands.values():
-                s.add(z3.Not(z3.substitute_vars(goal.body(), c)))
-                for h in ob.conds:       # and the universal hypotheses at the same candidates
-                    if z3.is_quantifier(h) and h.is_forall() and h.num_vars() == 1 and h.var_sort(0) == z3.IntSort():
-                        s.add(z3.substitute_vars(h.body(), c))
-        # help e-matching: instantiate the single-variable universal hypotheses at the goal's skolem constants
-        int_sks = [sk for sk in skolems if z3.is_int(sk)]
-        cands2 = [t for sk in int_sks[:3] for t in (sk, sk - 1, sk + 1)]
-        for c in ob.conds:
-            if z3.is_quantifier(c) and c.is_forall() and c.num_vars() == 1:
-                for sk in skolems:
-                    if sk.sort() == c.var_sort(0):
-                        s.add(z3.substitute_vars(c.body(), sk))
-                        if z3.is_int(sk):          # neighbours too: invariants relate index k with k-1 / k+1
-                            s.add(z3.substitute_vars(c.body(), sk - 1))
-                            s.add(z3.substitute_vars(c.body(), sk + 1))
-                            if len(int_sks) > 1:    # nested index structure: inner quantifiers at the goal's indices as well
-                                for h in _nested_instances(z3.substitute_vars(c.body(), sk), int_sks[:3]):
-                                    s.add(h)
-            elif z3.is_quantifier(c) and c.is_forall() and c.num_vars() == 2 and cands2 \
-                    and c.var_sort(0) == z3.IntSort() and c.var_sort(1) == z3.IntSort():
-                # two-index lemmas (monotone allocation counters, pairwise distinct keys) at all pairs of the goal's indices
-                for a in cands2:
-                    for b in cands2:
-                        s.add(z3.substitute_vars(c.body(), a, b))
     t0 = time.time()
-    if ob.expect == "unsat" and conjuncts is not None:
-        r = z3.unsat
-        base = list(s.assertions())
-        for cj in conjuncts:
-            r, s = _check(base + [z3.Not(cj)], Z3_TIMEOUT_MS)
-            if r != z3.unsat:
-                break
+    _SK[0] = 0
+    if ob.expect == "unsat":
+        r, s = _prove(list(ob.conds), ob.goal)
     else:
-        r, s = _check(list(s.assertions()), Z3_TIMEOUT_MS if ob.expect == "unsat" else 2_000)
+        # reachability checks (cover / canary) only have to rule out vacuity: 'unknown' is acceptable, so they get a short budget
+        r, s = _check(list(ob.conds), 2_000)
     ob.seconds = time.time() - t0
     ob.backend = "z3-" + z3.get_version_string()
     if ob.expect == "sat":
